@@ -19,7 +19,7 @@ import (
 )
 
 func TestMain(m *testing.M) {
-	vh.Rule("rapid histories (race-detector build) in which the harness owns the interesting interleavings through the scripted transport: (1) receive with a cancelled own or connection context - cancelled before or during NextPackage / NextPackageUntil, with 0..capacity+k packages sent, consumer having taken j of them, packets still arriving or not; (2) SendPackage / QueuePackage with an already cancelled own or connection context (1..4 packets); (3) Close of channel 0 or of a logical channel in a generated state: receive queue empty / partly filled / full with the reader parked on it (response abandoned after j packages, capacity c, j+c < n), a consumer blocked in NextPackage, a SendPackage parked in the transport's Write, peer answering the logout at once / late / never (60 s, thorough only), followed by every call on the closed channel incl. a second Close and by packets for its id; (4) Conn.Close with 1..4 channels in such states, with the connection error queue empty or full (transport failing). Watchdog oracle: a cancelled receive returns within 1 s with a queued package or an error that errors.Is the context error; a cancelled send writes zero bytes; Close returns within 5 s (65 s for the silent peer), never panics; after Close every call satisfies errors.Is(err, ErrChannelClosed) and delivers nothing; Conn.Close leaves every channel closed, the transport closed and the reader ended within 2 s. Non-trivial: the cancel/close overlaps an operation in flight or the queue was at or beyond capacity; distinct by the history")
+	vh.Rule("rapid histories (race-detector build) in which the harness owns the interesting interleavings through the scripted transport: (1) receive with a cancelled own or connection context - cancelled before or during NextPackage / NextPackageUntil (also with a callback that fails in the middle of a response whose rest never arrives), with 0..capacity+k packages sent, consumer having taken j of them, packets still arriving or not; (2) SendPackage / QueuePackage with an already cancelled own or connection context (1..4 packets); (3) Close of channel 0 or of a logical channel in a generated state: receive queue empty / partly filled / full with the reader parked on it (response abandoned after j packages, capacity c, j+c < n), a consumer blocked in NextPackage, a SendPackage parked in the transport's Write, peer answering the logout at once / late / never (60 s, thorough only), followed by every call on the closed channel incl. a second Close and by packets for its id; (4) Conn.Close with 1..4 channels in such states, with the connection error queue empty or full (transport failing), also after the context the connection was created with has been cancelled. Watchdog oracle: a cancelled receive returns within 1 s with a queued package or an error that errors.Is the context error; a cancelled send writes zero bytes; Close returns within 5 s (65 s for the silent peer), never panics; after Close every call satisfies errors.Is(err, ErrChannelClosed) and delivers nothing; Conn.Close leaves every channel closed, the transport closed and the reader ended within 2 s. Non-trivial: the cancel/close overlaps an operation in flight or the queue was at or beyond capacity; distinct by the history")
 	vh.Assume("'promptly' and 'bounded' are wall-clock bounds with slack (1 s / 5 s; a correct tree needs microseconds); schedules are sampled; one consumer per channel apart from the deliberately blocked one")
 	vh.Main(m, "C13")
 }
@@ -42,6 +42,12 @@ type c13Case struct {
 	NChan    int    `json:"channels"`
 	Packets  int    `json:"request_packets"`
 	Procs    int    `json:"gomaxprocs"`
+	// FailCB: (cancel-recv with NextPackageUntil) the callback fails on a package in the middle
+	// of the response, the rest of the response never arrives, then the context is cancelled
+	FailCB bool `json:"callback_fails_midway"`
+	// ParentCancelled: (connclose) the context passed when the connection was created is
+	// cancelled before Conn.Close is called - the usual deferred cleanup after a timeout
+	ParentCancelled bool `json:"parent_context_cancelled_first"`
 }
 
 // env is one connection with its peer.
@@ -182,6 +188,8 @@ func timed(d time.Duration, fn func()) (ok bool, pan interface{}, took time.Dura
 	}
 }
 
+var errCallback = errors.New("consumer callback failed")
+
 type plainCase c13Case
 
 func (c c13Case) String() string { return fmt.Sprintf("%+v", plainCase(c)) }
@@ -291,7 +299,18 @@ func runCancelRecv(c c13Case) *vh.Failure {
 		for {
 			var p tds.Package
 			var err error
-			if c.Until {
+			if c.Until && c.FailCB {
+				// the callback rejects the package; the library then drains the rest of the
+				// response - which never arrives - and must give up when the context ends
+				p, err = ch.NextPackageUntil(own, true, func(p tds.Package) (bool, error) { return false, errCallback })
+				if err != nil && errors.Is(err, errCallback) {
+					// the callback's error is what comes back; for the bookkeeping below it counts
+					// as "returned because of the cancellation"
+					lastErr = wantErr
+					calls++
+					return
+				}
+			} else if c.Until {
 				p, err = ch.NextPackageUntil(own, true, func(p tds.Package) (bool, error) { return true, nil })
 			} else {
 				p, err = ch.NextPackage(own, true)
@@ -322,6 +341,9 @@ func runCancelRecv(c c13Case) *vh.Failure {
 		return vh.Failf("C13/cancel-wrong-result", "%v: after cancellation the receive returned %v, want a queued package or an error wrapping %v", c, lastErr, wantErr)
 	}
 	vh.Label("recv:cancelled")
+	if c.FailCB {
+		vh.Label("recv:callback-failed-midway")
+	}
 	if !c.Before || c.Sent-c.Consumed >= c.Cap {
 		vh.NonTrivial(c.String())
 	}
@@ -587,6 +609,10 @@ func runConnClose(c c13Case) *vh.Failure {
 			time.Sleep(100 * time.Microsecond)
 		}
 	}
+	if c.ParentCancelled {
+		e.cancel()
+		time.Sleep(time.Duration(c.DelayUs%300) * time.Microsecond)
+	}
 	var cerr error
 	bound := 5 * time.Second
 	if c.Peer == "never" {
@@ -628,6 +654,9 @@ func runConnClose(c c13Case) *vh.Failure {
 	if c.ErrFull {
 		vh.Label("connclose:error-queue-full")
 	}
+	if c.ParentCancelled {
+		vh.Label("connclose:parent-context-cancelled-first")
+	}
 	if readerParked {
 		vh.Label("connclose:reader-parked")
 	}
@@ -666,6 +695,16 @@ func genCase(rt *rapid.T, kind string) c13Case {
 		c.Until = rapid.Bool().Draw(rt, "until")
 		c.Conn = rapid.IntRange(0, 2).Draw(rt, "connctx") == 0
 		c.Before = rapid.Bool().Draw(rt, "before")
+		if c.Until && rapid.IntRange(0, 2).Draw(rt, "failcb") == 0 {
+			// needs at least one package to fail on, and no further packets
+			c.FailCB, c.More = true, false
+			if c.Sent == 0 {
+				c.Sent = 1
+			}
+			if c.Consumed >= c.Sent {
+				c.Consumed = c.Sent - 1
+			}
+		}
 	case "cancel-send":
 		c.Conn = rapid.Bool().Draw(rt, "connctx")
 		c.Until = rapid.Bool().Draw(rt, "queue+sendremaining")
@@ -691,6 +730,7 @@ func genCase(rt *rapid.T, kind string) c13Case {
 		}
 		c.ErrFull = rapid.IntRange(0, 2).Draw(rt, "errfull") == 0
 		c.Peer = rapid.SampledFrom([]string{"now", "now", "late"}).Draw(rt, "peer")
+		c.ParentCancelled = rapid.IntRange(0, 2).Draw(rt, "parentcancelled") == 0
 	}
 	return c
 }
